@@ -210,4 +210,9 @@ def lookupName (ne : NameEnv) (x : String) : Resolved :=
   else if ne.func x then .pyscriptFunc
   else .evalName
 
+/-- `ast_name` for a name the enclosing function declares `global`: only the global symbol table is consulted
+(l.~1545 `if self.curr_func and arg.id in self.curr_func.global_names`), never the builtins -/
+def lookupGlobalDeclared (ne : NameEnv) (x : String) : Resolved :=
+  if ne.user x then .user else .evalName
+
 end PsModel.C17
